@@ -23,7 +23,7 @@ RECORD_SHAPES = set() if _os.environ.get("PYVC_RECORD_SHAPES") else None
 # shapes whose handlers were reviewed by hand although the unchanged tree does not use them (the duals of recorded
 # ones: np.max next to np.min, dict.get with one argument, min next to max)
 EXTRA_SHAPES = {"lib:np.max/1/", "lib:numpy.max/1/", "method:dict.get/1/", "builtin:min/1/key", "builtin:min/2/",
-                "builtin:max/2/", "builtin:abs/1/", "builtin:bool/1/", "builtin:tuple/1/"}
+                "builtin:max/2/", "builtin:max/1/", "builtin:min/1/", "builtin:abs/1/", "builtin:bool/1/", "builtin:tuple/1/", "builtin:dict/1/"}
 try:
     KNOWN_SHAPES = set(_json.load(open(_SHAPES_FILE))) | EXTRA_SHAPES
 except Exception:
@@ -477,6 +477,9 @@ class Lib:
             st._expect_elem = outer_expect
         if isinstance(val.t, TPy):
             return None
+        if val.t == xs.t.elem and z3.eq(val.z, ex.seq_get(xs, j).z):
+            # [x for x in xs] / [copy_of(x) for x in xs] with a value-identity copy: a new list with the content of xs
+            return SV(xs.t.with_kind("list"), xs.z)
         import hashlib as _h
         # the name depends on the element expression, not on the text of the iterated sequence (an argument)
         key = _h.md5((ast.unparse(node.elt) + "|" + tgt + "|" + ",".join(free) + "|" + xs.t.key() + "|" +
@@ -988,6 +991,18 @@ class Lib:
                 ex.used_lib.add("max/min(enumerate(xs), key=itemgetter(1)): the first (index, value) pair whose value "
                                 "is extremal; ValueError on an empty sequence")
                 return SV(TPy("pytuple"), py=[SV(INT, idx), SV(vals.t.elem, va[idx])])
+        if len(node.args) == 1 and not node.keywords:
+            vals = self._pairs_of_enumerate(ex, st, node.args[0])
+            if vals is not None:
+                # max/min(enumerate(vals)) WITHOUT key: (index, value) pairs compare by index first, so the result
+                # is simply the last / first pair; ValueError on an empty sequence
+                n = ex.seq_len(vals)
+                va = vals.t.arr(vals.z)
+                g = z3.And(*(st.guards + [n == 0])) if st.guards else (n == 0)
+                st.pending_exc.append((g, "ValueError"))
+                idx = z3.IntVal(0) if is_min else n - 1
+                ex.used_lib.add("max/min(enumerate(xs)) without key: pairs are ordered by their index")
+                return SV(TPy("pytuple"), py=[SV(INT, idx), SV(vals.t.elem, va[idx])])
         if len(node.args) == 2 and not node.keywords:
             a, b = ex.ev(st, node.args[0]), ex.ev(st, node.args[1])
             x, y, t = ex.unify_num(a, b)
@@ -1031,6 +1046,17 @@ class Lib:
             lc = ast.ListComp(elt=a.py.elt, generators=a.py.generators)
             return self.comprehension(ex, st, lc)
         raise self.E.Unsupported("list() of %s" % a.t)
+
+    def b_dict(self, ex, st, node):
+        """dict(m) of ONE mapping value (a Row record or a dict): a new object with the same content.  Values are
+        mathematical here - the engine has no object identity for rows - so the copy IS the value; aliasing between
+        the copy and the original is therefore outside what a contract can observe (bounded harness only)."""
+        if len(node.args) != 1 or node.keywords:
+            raise self.E.Unsupported("dict() with other than one positional argument")
+        a = ex.ev(st, node.args[0])
+        if (isinstance(a.t, TAbs) and a.t.name == "Row") or isinstance(a.t, TDict):
+            return a
+        raise self.E.Unsupported("dict() of %s" % a.t)
 
     def b_tuple(self, ex, st, node):
         a = ex.ev(st, node.args[0])
